@@ -252,6 +252,8 @@ func majOracle(c *Case, req M, resp *Response) []Violation {
 	}
 	if champions != 1 {
 		vs = append(vs, viol(c, "C11/champion-count", "%d entries name no opponent; exactly the undefeated alternative must", champions))
+	} else if len(resp.Result) > 0 && asS(resp.Result[0].Evaluation["comparedWith"]) != "" {
+		vs = append(vs, viol(c, "C11/champion-not-first", "the ranking starts with %s, which dropped out against %s; the undefeated alternative comes first", resp.Result[0].Alternative.ID, asS(resp.Result[0].Evaluation["comparedWith"])))
 	}
 	// T2
 	first := ""
